@@ -331,3 +331,24 @@ ARGS = {
     "zip_nested_lists": lambda: {"x": np.ones(2), "z": np.ones(2)},
     "filter_shallow": lambda: {"xs": [[1], [2]]},
 }
+
+
+# ---- dict built from pairs: it holds the elements of the pairs
+def dict_from_zip(xs: list):
+    a = dict(zip("ab", xs))["a"]
+    a[...] = 2.5
+
+
+def dict_update_pairs(xs: list):
+    e = {}
+    e.update(zip("ab", xs))
+    return e
+
+
+def dict_ior_pairs(xs: list):
+    e = {}
+    e |= [("a", xs[0])]
+    e["a"][...] = 3.5
+
+
+EXPECT.update({"dict_from_zip": {"write": ["xs"]}, "dict_update_pairs": {"alias": ["xs"]}, "dict_ior_pairs": {"write": ["xs"]}})
